@@ -1023,6 +1023,13 @@ func oracleC07(c *serveCase, extra []string, res *serveResult) (string, []string
 // ---------------------------------------------------------------------------------------------------
 
 func genC11(tier string, seed uint64, emit func(string)) {
+	// on a real socket: a pipeline of large requests followed by a cut one, the client half-closes and reads late - the
+	// replies to the complete requests must all arrive although the server is the side that closes
+	for _, k := range []string{"p", "t"} {
+		emit(fmt.Sprintf("cutsock %s 48 65536 300", k))
+		emit(fmt.Sprintf("cutsock %s 3 17 0", k))
+		emit(fmt.Sprintf("cutsock %s 200 4096 150", k))
+	}
 	// a request cut off by the client going away - orderly, by reset, between CR and LF, inside a bulk payload - on real
 	// plain and TLS connections: the connection must leave the registry, its goroutine and socket must go
 	for _, k := range []string{"p", "t"} {
